@@ -1,4 +1,728 @@
-//! C07 — stub, replaced when the property's harness lands.
-use crate::util::{Em, Rng};
+//! C07 — nearest-neighbour indices: linear scan, k-d tree, ball tree of `linfa-nn`.
+//!
+//! Every request carries the whole point set (hex floats), so the Lean driver rebuilds the same
+//! batch.  For the ball tree the request also carries the splits the real tree took (read through
+//! the `verif_hooks_c07::dump` hook): `order_stat::kth_by` is a parameter of the model, and the
+//! driver checks each split against the specification of `partition`.
+//!
+//! Canonical answers (ties may be broken arbitrarily by the property):
+//!   knn   -> `ok n=<count> d=<reduced distances in returned order> strict=<sorted positions nearer than the last>`
+//!   range -> `ok pos=<sorted positions>`
+//!   tree  -> `ok split=ok <pre-order node dump>`
+//! The oracle recomputes the property from first principles (own distance code, brute force).
+use crate::util::*;
+use linfa_nn::distance::{Distance, L1Dist, L2Dist, LInfDist, LpDist};
+use linfa_nn::{BallTreeIndex, BuildError, CommonNearestNeighbour, NearestNeighbour, NnError};
+use ndarray::{Array1, Array2, ArrayView1};
 
-pub fn run(_em: &mut Em, _rng: &mut Rng) {}
+trait Sc: linfa::Float {
+    const TY: &'static str;
+    fn hx(self) -> String;
+    fn wide(self) -> f64;
+    fn from64(x: f64) -> Self;
+    fn same_bits(self, o: Self) -> bool;
+}
+impl Sc for f64 {
+    const TY: &'static str = "f64";
+    fn hx(self) -> String {
+        hex64(self)
+    }
+    fn wide(self) -> f64 {
+        self
+    }
+    fn from64(x: f64) -> Self {
+        x
+    }
+    fn same_bits(self, o: Self) -> bool {
+        self.to_bits() == o.to_bits()
+    }
+}
+impl Sc for f32 {
+    const TY: &'static str = "f32";
+    fn hx(self) -> String {
+        hex32(self)
+    }
+    fn wide(self) -> f64 {
+        self as f64
+    }
+    fn from64(x: f64) -> Self {
+        x as f32
+    }
+    fn same_bits(self, o: Self) -> bool {
+        self.to_bits() == o.to_bits()
+    }
+}
+
+#[derive(Clone, Copy, Debug, PartialEq)]
+enum Met {
+    L1,
+    L2,
+    Linf,
+    Lp(f64),
+}
+impl Met {
+    fn name(&self) -> &'static str {
+        match self {
+            Met::L1 => "l1",
+            Met::L2 => "l2",
+            Met::Linf => "linf",
+            Met::Lp(_) => "lp",
+        }
+    }
+    fn p(&self) -> f64 {
+        match self {
+            Met::Lp(p) => *p,
+            _ => 2.0,
+        }
+    }
+    fn approx(&self) -> bool {
+        matches!(self, Met::Lp(_))
+    }
+}
+
+macro_rules! with_metric {
+    ($met:expr, $F:ty, $d:ident => $body:expr) => {
+        match $met {
+            Met::L1 => {
+                let $d = L1Dist;
+                $body
+            }
+            Met::L2 => {
+                let $d = L2Dist;
+                $body
+            }
+            Met::Linf => {
+                let $d = LInfDist;
+                $body
+            }
+            Met::Lp(p) => {
+                let $d = LpDist(<$F as Sc>::from64(p));
+                $body
+            }
+        }
+    };
+}
+
+#[derive(Clone, Copy, Debug, PartialEq)]
+enum Kind {
+    Linear,
+    Kd,
+    Ball,
+}
+impl Kind {
+    fn name(&self) -> &'static str {
+        match self {
+            Kind::Linear => "linear",
+            Kind::Kd => "kd",
+            Kind::Ball => "ball",
+        }
+    }
+    fn builder(&self) -> CommonNearestNeighbour {
+        match self {
+            Kind::Linear => CommonNearestNeighbour::LinearSearch,
+            Kind::Kd => CommonNearestNeighbour::KdTree,
+            Kind::Ball => CommonNearestNeighbour::BallTree,
+        }
+    }
+}
+const KINDS: [Kind; 3] = [Kind::Linear, Kind::Kd, Kind::Ball];
+
+/// first-principles distance (not the reduced one) on widened coordinates
+fn own_dist(met: Met, a: &[f64], b: &[f64]) -> f64 {
+    match met {
+        Met::L1 => a.iter().zip(b).map(|(x, y)| (x - y).abs()).sum(),
+        Met::L2 => a.iter().zip(b).map(|(x, y)| (x - y) * (x - y)).sum::<f64>().sqrt(),
+        Met::Linf => a.iter().zip(b).map(|(x, y)| (x - y).abs()).fold(0.0, f64::max),
+        Met::Lp(p) => a.iter().zip(b).map(|(x, y)| (x - y).abs().powf(p)).sum::<f64>().powf(1.0 / p),
+    }
+}
+
+fn wide_row<F: Sc>(r: ArrayView1<F>) -> Vec<f64> {
+    r.iter().map(|x| x.wide()).collect()
+}
+
+struct Setup<F: Sc> {
+    pts: Array2<F>,
+    met: Met,
+    leaf: usize,
+    /// relative tolerance of the oracle (0 on lattice inputs of an exactly computed metric)
+    tol: f64,
+    tag: &'static str,
+}
+
+impl<F: Sc> Setup<F> {
+    fn n(&self) -> usize {
+        self.pts.nrows()
+    }
+    fn ncols(&self) -> usize {
+        self.pts.ncols()
+    }
+    fn head(&self) -> String {
+        let rows: Vec<Vec<F>> = self.pts.rows().into_iter().map(|r| r.to_vec()).collect();
+        format!("ty={} metric={} p={} ncols={} leaf={} pts={}", F::TY, self.met.name(), F::from64(self.met.p()).hx(), self.ncols(), self.leaf, list2(rows.iter().map(|r| r.iter().copied()), |x: F| x.hx()))
+    }
+    fn buildable(&self) -> bool {
+        self.leaf >= 1 && self.ncols() >= 1
+    }
+    fn show_d(&self, x: F) -> String {
+        if self.met.approx() {
+            format!("~{}", hex64(x.wide()))
+        } else {
+            x.hx()
+        }
+    }
+    /// splits of the real ball tree: `centerpos;left;right|…` + the pre-order dump
+    fn script_and_dump(&self) -> Option<(String, String, Vec<(Vec<f64>, f64, Vec<usize>)>)> {
+        if !self.buildable() {
+            return None;
+        }
+        let nodes = with_metric!(self.met, F, d => {
+            let ix = BallTreeIndex::new(&self.pts, self.leaf, d).ok()?;
+            linfa_nn::verif_hooks_c07::dump(&ix)
+        });
+        // recursive descent over the pre-order list
+        fn go<F: Sc>(nodes: &[linfa_nn::verif_hooks_c07::NodeDump<F>], at: &mut usize, pts: &Array2<F>, script: &mut Vec<String>, balls: &mut Vec<(Vec<f64>, f64, Vec<usize>)>) -> Vec<usize> {
+            let me = *at;
+            *at += 1;
+            let nd = &nodes[me];
+            if nd.leaf {
+                balls.push((nd.center.iter().map(|x| x.wide()).collect(), nd.radius.wide(), nd.members.clone()));
+                return nd.members.clone();
+            }
+            let slot = script.len();
+            script.push(String::new());
+            let bslot = balls.len();
+            balls.push((nd.center.iter().map(|x| x.wide()).collect(), nd.radius.wide(), vec![]));
+            let l = go(nodes, at, pts, script, balls);
+            let r = go(nodes, at, pts, script, balls);
+            let mut all = l.clone();
+            all.extend(r.iter().copied());
+            let cpos = all.iter().copied().find(|i| pts.row(*i).iter().zip(nd.center.iter()).all(|(a, b)| a.same_bits(*b))).unwrap_or(usize::MAX);
+            script[slot] = format!("{};{};{}", if cpos == usize::MAX { "x".to_string() } else { cpos.to_string() }, list(l.iter(), |x| x.to_string()), list(r.iter(), |x| x.to_string()));
+            balls[bslot].2 = all.clone();
+            all
+        }
+        let mut script = vec![];
+        let mut balls = vec![];
+        let mut at = 0;
+        go(&nodes, &mut at, &self.pts, &mut script, &mut balls);
+        let f = |x: F| self.show_d(x);
+        let dump = nodes
+            .iter()
+            .map(|nd| format!("{}/{}/{}/{}", if nd.leaf { "L" } else { "B" }, list(nd.center.iter().copied(), f), f(nd.radius), if nd.leaf { list(nd.members.iter(), |x| x.to_string()) } else { "-".to_string() }))
+            .collect::<Vec<_>>()
+            .join("|");
+        Some((script.join("|"), dump, balls))
+    }
+}
+
+/// smallest relative gap between different values (same formula as the driver's `marginOf`)
+fn margin_of(mut v: Vec<f64>) -> f64 {
+    v.sort_by(|a, b| a.partial_cmp(b).unwrap());
+    let mut m = 1.0f64;
+    for w in v.windows(2) {
+        if w[0] < w[1] {
+            let den = if w[1].abs() < 1e-300 { 1e-300 } else { w[1].abs() };
+            let g = (w[1] - w[0]) / den;
+            if g < m {
+                m = g;
+            }
+        }
+    }
+    m
+}
+
+#[derive(Clone, Copy)]
+enum Q<F> {
+    Knn(usize),
+    Range(F),
+}
+
+type Answer = Result<Vec<(Vec<u64>, Vec<f64>, usize)>, String>; // (bits as u64, widened coords, pos)
+
+/// run the real index; returns `Err("err …")` for reported errors
+fn run_real<F: Sc>(s: &Setup<F>, kind: Kind, q: &[F], what: Q<F>) -> (Answer, Vec<F>, Vec<F>, F) {
+    // returns answer, reduced distances of the returned points, reduced distances of all rows, toR(r)
+    let qa = Array1::from(q.to_vec());
+    with_metric!(s.met, F, d => {
+        let all_rd: Vec<F> = if q.len() == s.ncols() && s.ncols() > 0 { s.pts.rows().into_iter().map(|r| d.rdistance(qa.view(), r)).collect() } else { vec![] };
+        let rr = match what { Q::Range(r) => d.dist_to_rdist(r), _ => F::zero() };
+        let ix = match kind.builder().from_batch_with_leaf_size(&s.pts, s.leaf, d.clone()) {
+            Ok(ix) => ix,
+            Err(BuildError::EmptyLeaf) => return (Err("err EmptyLeaf".into()), vec![], all_rd, rr),
+            Err(BuildError::ZeroDimension) => return (Err("err ZeroDimension".into()), vec![], all_rd, rr),
+        };
+        let res = match what {
+            Q::Knn(k) => ix.k_nearest(qa.view(), k),
+            Q::Range(r) => ix.within_range(qa.view(), r),
+        };
+        match res {
+            Err(NnError::WrongDimension) => (Err("err WrongDimension".into()), vec![], all_rd, rr),
+            Ok(v) => {
+                let rds: Vec<F> = v.iter().map(|(p, _)| d.rdistance(qa.view(), p.reborrow())).collect();
+                let out = v.iter().map(|(p, i)| (p.iter().map(|x| x.wide().to_bits()).collect(), wide_row(p.reborrow()), *i)).collect();
+                (Ok(out), rds, all_rd, rr)
+            }
+        }
+    })
+}
+
+fn query_case<F: Sc>(em: &mut Em, s: &Setup<F>, kind: Kind, q: &[F], what: Q<F>, script: &Option<String>) {
+    let n = s.n();
+    let mut op = match what {
+        Q::Knn(k) => format!("knn {} kind={} q={} k={}", s.head(), kind.name(), list(q.iter().copied(), |x: F| x.hx()), k),
+        Q::Range(r) => format!("range {} kind={} q={} r={}", s.head(), kind.name(), list(q.iter().copied(), |x: F| x.hx()), r.hx()),
+    };
+    if kind == Kind::Ball {
+        if let Some(sc) = script {
+            op.push_str(&format!(" script={}", sc));
+        }
+    }
+    let well_formed = s.buildable() && q.len() == s.ncols();
+    let opn = if matches!(what, Q::Knn(_)) { "knn" } else { "range" };
+    let class = if !well_formed {
+        format!("malformed:{}:{}", kind.name(), if s.leaf == 0 { "leaf=0" } else if s.ncols() == 0 { "ncols=0" } else { "qdim" })
+    } else {
+        match what {
+            Q::Knn(0) if n > 0 => format!("knn:{}:k=0", kind.name()),
+            _ => format!("{}:{}:{}:{}", opn, kind.name(), s.met.name(), s.tag),
+        }
+    };
+    em.count(&format!("kind:{}", kind.name()));
+    em.count(&format!("metric:{}", s.met.name()));
+    em.count(&format!("ty:{}", F::TY));
+    em.count(&format!("gen:{}", s.tag));
+    if !well_formed {
+        em.count("malformed");
+    }
+    let cls = class.clone();
+    em.case_valid(op, &class, move |ctx| {
+        let (ans, rds, all_rd, rr) = run_real(s, kind, q, what);
+        let out = match ans {
+            Err(e) => {
+                ctx.require(!well_formed, "no_error_on_valid", &cls, || format!("well-formed build/query answered {}", e));
+                if !well_formed {
+                    let want = if s.leaf == 0 { "err EmptyLeaf" } else if s.ncols() == 0 { "err ZeroDimension" } else { "err WrongDimension" };
+                    ctx.require(e == want, "errors", &cls, || format!("malformed input reported as `{}`, expected `{}`", e, want));
+                }
+                return e;
+            }
+            Ok(o) => o,
+        };
+        ctx.require(well_formed, "errors", &cls, || format!("malformed build/query was answered with {} points instead of an error", out.len()));
+        if !well_formed {
+            return format!("ok answered n={}", out.len());
+        }
+        // ---- oracle, from first principles
+        let qw: Vec<f64> = q.iter().map(|x| x.wide()).collect();
+        let rows: Vec<Vec<f64>> = s.pts.rows().into_iter().map(wide_row).collect();
+        let own_all: Vec<f64> = rows.iter().map(|r| own_dist(s.met, &qw, r)).collect();
+        let mut seen = vec![false; n];
+        for (bits, _, pos) in &out {
+            if *pos >= n {
+                ctx.fail("coords_position", &cls, format!("returned position {} out of range (n={})", pos, n));
+                continue;
+            }
+            let want: Vec<u64> = rows[*pos].iter().map(|x| x.to_bits()).collect();
+            ctx.require(&want == bits, "coords_position", &cls, || format!("returned coordinates differ from batch row {}", pos));
+            ctx.require(!seen[*pos], "distinct", &cls, || format!("row {} returned twice", pos));
+            seen[*pos] = true;
+        }
+        let own_out: Vec<f64> = out.iter().filter(|(_, _, p)| *p < n).map(|(_, _, p)| own_all[*p]).collect();
+        let close = |a: f64, b: f64| (a - b).abs() <= s.tol * a.abs().max(b.abs());
+        match what {
+            Q::Knn(k) => {
+                ctx.require(out.len() == k.min(n), "count", &cls, || format!("{} points returned, min(k,n) = {} (k={}, n={})", out.len(), k.min(n), k, n));
+                ctx.require(own_out.windows(2).all(|w| w[0] <= w[1] || close(w[0], w[1])), "ascending", &cls, || format!("distances not ascending: {:?}", own_out));
+                let mut want = own_all.clone();
+                want.sort_by(|a, b| a.partial_cmp(b).unwrap());
+                want.truncate(k.min(n));
+                let mut got = own_out.clone();
+                got.sort_by(|a, b| a.partial_cmp(b).unwrap());
+                ctx.require(got.len() == want.len() && got.iter().zip(&want).all(|(a, b)| a == b || close(*a, *b)), "true_k_nearest", &cls, || format!("returned distances {:?}, true k nearest {:?}", got, want));
+                if out.is_empty() {
+                    ctx.mark_trivial();
+                }
+                let strict: Vec<usize> = match rds.last() {
+                    None => vec![],
+                    Some(last) => (0..n).filter(|i| all_rd[*i] < *last).collect(),
+                };
+                let margin = if s.met.approx() { format!(" margin=~{}", hex64(margin_of(all_rd.iter().map(|x| x.wide()).collect()))) } else { String::new() };
+                format!("ok n={} d={} strict={}{}", out.len(), list(rds.iter().copied(), |x| s.show_d(x)), list(strict, |x| x.to_string()), margin)
+            }
+            Q::Range(r) => {
+                let rw = r.wide();
+                for i in 0..n {
+                    let d = own_all[i];
+                    if d < rw && !close(d, rw) {
+                        ctx.require(seen[i], "inside_included", &cls, || format!("row {} at distance {} < radius {} missing", i, d, rw));
+                    }
+                    if d > rw && !close(d, rw) {
+                        ctx.require(!seen[i], "outside_excluded", &cls, || format!("row {} at distance {} > radius {} returned", i, d, rw));
+                    }
+                }
+                let mut pos: Vec<usize> = out.iter().map(|(_, _, p)| *p).collect();
+                pos.sort();
+                let margin = if s.met.approx() {
+                    let mut v: Vec<f64> = all_rd.iter().map(|x| x.wide()).collect();
+                    v.push(rr.wide());
+                    format!(" margin=~{}", hex64(margin_of(v)))
+                } else {
+                    String::new()
+                };
+                format!("ok pos={}{}", list(pos, |x| x.to_string()), margin)
+            }
+        }
+    });
+}
+
+/// the three kinds answer the same query interchangeably (oracle only)
+fn agree_case<F: Sc>(em: &mut Em, s: &Setup<F>, q: &[F], what: Q<F>) {
+    if !(s.buildable() && q.len() == s.ncols()) {
+        return;
+    }
+    let op = match what {
+        Q::Knn(k) => format!("#agree knn {} q={} k={}", s.head(), list(q.iter().copied(), |x: F| x.hx()), k),
+        Q::Range(r) => format!("#agree range {} q={} r={}", s.head(), list(q.iter().copied(), |x: F| x.hx()), r.hx()),
+    };
+    em.case(op, move |ctx| {
+        // per kind: canonical string, sorted positions, widened reduced distances of the answer
+        let mut canon: Vec<(Kind, String, Vec<usize>, Vec<f64>)> = vec![];
+        let mut border = false;
+        for kind in KINDS {
+            let r = std::panic::catch_unwind(std::panic::AssertUnwindSafe(|| run_real(s, kind, q, what)));
+            let c = match r {
+                Err(_) => ("panic".to_string(), vec![], vec![]),
+                Ok((Err(e), ..)) => (e, vec![], vec![]),
+                Ok((Ok(out), rds, all_rd, rr)) => {
+                    let mut pos: Vec<usize> = out.iter().map(|(_, _, p)| *p).collect();
+                    pos.sort();
+                    let w: Vec<f64> = rds.iter().map(|x| x.wide()).collect();
+                    match what {
+                        Q::Knn(_) => (format!("n={} d={}", out.len(), list(rds.iter().copied(), |x: F| x.hx())), pos, w),
+                        Q::Range(_) => {
+                            border = all_rd.iter().any(|d| *d == rr);
+                            (format!("pos={}", list(pos.iter(), |x| x.to_string())), pos, w)
+                        }
+                    }
+                }
+            };
+            canon.push((kind, c.0, c.1, c.2));
+        }
+        // a difference that hangs on one rounding (a point within a few ulps of the radius, a k-th
+        // distance that differs in the last bits) is classed `ulp`: the pruning bound of a tree is
+        // computed in floating point
+        let band = if F::TY == "f32" { 1e-6 } else { 4e-15 };
+        let qw: Vec<f64> = q.iter().map(|x| x.wide()).collect();
+        let rows: Vec<Vec<f64>> = s.pts.rows().into_iter().map(wide_row).collect();
+        let (_, base, base_pos, base_d) = canon[0].clone();
+        for (kind, c, pos, dd) in &canon[1..] {
+            if *c == base {
+                continue;
+            }
+            let (clause, class) = match what {
+                Q::Knn(k) => {
+                    let near = dd.len() == base_d.len() && dd.iter().zip(&base_d).all(|(a, b)| (a - b).abs() <= band * a.abs().max(b.abs()));
+                    ("indices_agree", format!("knn:{}:{}", kind.name(), if k == 0 { "k=0" } else if near && !c.starts_with('p') && !c.starts_with('e') { "ulp" } else { "k>0" }))
+                }
+                Q::Range(r) => {
+                    let rw = r.wide();
+                    let differing: Vec<usize> = (0..rows.len()).filter(|i| pos.contains(i) != base_pos.contains(i)).collect();
+                    let near = !differing.is_empty() && differing.iter().all(|i| (own_dist(s.met, &qw, &rows[*i]) - rw).abs() <= band * rw.abs());
+                    if border && !near {
+                        ("indices_agree_on_border", format!("range:{}:border", kind.name()))
+                    } else if border {
+                        ("indices_agree_on_border", format!("range:{}:border", kind.name()))
+                    } else if near && c.starts_with("pos=") {
+                        ("indices_agree", format!("range:{}:ulp", kind.name()))
+                    } else {
+                        ("indices_agree", format!("range:{}:interior", kind.name()))
+                    }
+                }
+            };
+            ctx.fail(clause, &class, format!("linear scan answers `{}`, {} answers `{}`", base, kind.name(), c));
+        }
+        String::new()
+    });
+    em.count("agree");
+}
+
+fn tree_case<F: Sc>(em: &mut Em, s: &Setup<F>) -> Option<String> {
+    let (script, dump, balls) = s.script_and_dump()?;
+    let op = format!("tree {} script={}", s.head(), script);
+    let cls = format!("tree:{}:{}", s.met.name(), s.tag);
+    let sc = script.clone();
+    em.case_valid(op, &cls.clone(), move |ctx| {
+        let rows: Vec<Vec<f64>> = s.pts.rows().into_iter().map(wide_row).collect();
+        // state invariant: every point of a subtree lies within `radius` of `center`
+        for (c, rad, members) in &balls {
+            for i in members {
+                let d = own_dist(s.met, &rows[*i], c);
+                ctx.require(d <= *rad * (1.0 + s.tol.max(if F::TY == "f32" { 1e-5 } else { 1e-12 })) + (if F::TY == "f32" { 1e-6 } else { 1e-13 }) * c.iter().fold(1.0, |m: f64, x| m.max(x.abs())), "ball_inv", &cls, || format!("row {} at distance {} from centre {:?}, radius {}", i, d, c, rad));
+            }
+        }
+        if let Some((_, _, root)) = balls.first() {
+            let mut m = root.clone();
+            m.sort();
+            ctx.require(m == (0..s.n()).collect::<Vec<_>>(), "tree_partition", &cls, || format!("tree stores rows {:?} of {}", m, s.n()));
+        }
+        format!("ok split=ok {}", dump)
+    });
+    Some(sc)
+}
+
+// ------------------------------------------------------------------ generators
+
+fn gen_cloud(rng: &mut Rng, thorough: bool) -> (Vec<Vec<f64>>, usize, bool, &'static str) {
+    // returns rows, ncols, lattice?, tag
+    let big = thorough && rng.chance(1, 6);
+    let d = match rng.below(10) {
+        0..=2 => 1,
+        3..=5 => 2,
+        6..=7 => 3,
+        8 => 1 + rng.below(6),
+        _ => 1 + rng.below(16),
+    };
+    let n = match rng.below(12) {
+        0 => 0,
+        1 => 1,
+        2 => 2,
+        3..=8 => 3 + rng.below(if big { 60 } else { 14 }),
+        _ => 10 + rng.below(if big { 120 } else { 22 }),
+    };
+    let style = rng.below(10);
+    let mut rows = vec![];
+    let (lattice, tag): (bool, &'static str) = match style {
+        0 => {
+            // all equal
+            let p: Vec<f64> = (0..d).map(|_| rng.range(-2, 2) as f64).collect();
+            for _ in 0..n {
+                rows.push(p.clone());
+            }
+            (true, "allequal")
+        }
+        1 | 2 => {
+            // heavy duplicates: draw from a pool of 1..3 points
+            let pool: Vec<Vec<f64>> = (0..1 + rng.below(3)).map(|_| (0..d).map(|_| rng.range(-3, 3) as f64).collect()).collect();
+            for _ in 0..n {
+                rows.push(rng.pick(&pool).clone());
+            }
+            (true, "duplicates")
+        }
+        3 | 4 | 5 => {
+            // small integer lattice: many equidistant ties
+            let w = 1 + rng.below(4) as i64;
+            for _ in 0..n {
+                rows.push((0..d).map(|_| rng.range(-w, w) as f64).collect());
+            }
+            (true, "lattice")
+        }
+        6 => {
+            // half-integer lattice
+            for _ in 0..n {
+                rows.push((0..d).map(|_| rng.range(-8, 8) as f64 / 2.0).collect());
+            }
+            (true, "halflattice")
+        }
+        7 => {
+            // pythagorean rings around the origin (points exactly on a radius for L2)
+            let ring: [(i64, i64); 12] = [(3, 4), (4, 3), (-3, 4), (5, 0), (0, 5), (0, -5), (-4, -3), (6, 8), (8, 6), (5, 12), (0, 0), (1, 1)];
+            for _ in 0..n {
+                let (a, b) = *rng.pick(&ring);
+                let mut p = vec![0.0; d];
+                p[0] = a as f64;
+                if d > 1 {
+                    p[1] = b as f64;
+                }
+                rows.push(p);
+            }
+            (true, "rings")
+        }
+        8 => {
+            // clustered real-valued cloud
+            let centers: Vec<Vec<f64>> = (0..1 + rng.below(3)).map(|_| (0..d).map(|_| (rng.unit() - 0.5) * 20.0).collect()).collect();
+            for _ in 0..n {
+                let c = rng.pick(&centers).clone();
+                rows.push(c.iter().map(|x| x + (rng.unit() - 0.5) * 0.5).collect());
+            }
+            (false, "clustered")
+        }
+        _ => {
+            // uniform cloud on a random scale
+            let scale = 10f64.powi(rng.range(-3, 3) as i32);
+            let off = if rng.coin() { 0.0 } else { scale * 100.0 };
+            for _ in 0..n {
+                rows.push((0..d).map(|_| off + (rng.unit() - 0.5) * scale).collect());
+            }
+            (false, "uniform")
+        }
+    };
+    (rows, d, lattice, tag)
+}
+
+fn gen_metric(rng: &mut Rng, lattice: bool) -> Met {
+    match rng.below(8) {
+        0 | 1 => Met::L1,
+        2 | 3 | 4 => Met::L2,
+        5 => Met::Linf,
+        _ => {
+            if lattice || rng.coin() {
+                Met::Lp(*rng.pick(&[1.0, 2.0, 3.0, 4.0]))
+            } else {
+                Met::Lp(*rng.pick(&[1.5, 2.5, 3.25]))
+            }
+        }
+    }
+}
+
+fn scenario<F: Sc>(em: &mut Em, rng: &mut Rng, rows: &[Vec<f64>], d: usize, lattice: bool, tag: &'static str, met: Met, malformed: u8) {
+    let n = rows.len();
+    let ncols = if malformed == 2 { 0 } else { d };
+    let pts: Array2<F> = Array2::from_shape_fn((n, ncols), |(i, j)| F::from64(rows[i][j]));
+    let leaf = if malformed == 1 {
+        0
+    } else {
+        match rng.below(6) {
+            0 => 1,
+            1 => 2,
+            2 => 1 + rng.below(4),
+            3 => 1 + rng.below(n + 2),
+            4 => 16,
+            _ => 1 + rng.below(3),
+        }
+    };
+    // L1 / Linf on lattice points are computed exactly; everything else goes through sqrt / pow /
+    // rounding sums, so the oracle leaves a relative band around the radius / between distances free
+    let exact = lattice && matches!(met, Met::L1 | Met::Linf);
+    let tol = if exact { 0.0 } else if F::TY == "f32" { 1e-5 } else if lattice { 1e-12 } else { 1e-9 };
+    let s = Setup { pts, met, leaf, tol, tag };
+    let script = tree_case(em, &s);
+    let nq = if em.thorough() { 3 } else { 2 };
+    for _ in 0..nq {
+        // query point: a stored point, a lattice point, or a point between
+        let mut q: Vec<F> = match rng.below(4) {
+            0 if n > 0 && ncols > 0 => s.pts.row(rng.below(n)).to_vec(),
+            1 => (0..d).map(|_| F::from64(rng.range(-4, 4) as f64)).collect(),
+            2 => (0..d).map(|_| F::from64(rng.range(-8, 8) as f64 / 2.0)).collect(),
+            _ => {
+                if lattice {
+                    (0..d).map(|_| F::from64(rng.range(-6, 6) as f64 / 4.0)).collect()
+                } else if n > 0 && ncols > 0 {
+                    let base = s.pts.row(rng.below(n)).to_vec();
+                    base.iter().map(|x| F::from64(x.wide() + (rng.unit() - 0.5) * 0.1)).collect()
+                } else {
+                    (0..d).map(|_| F::from64(rng.unit())).collect()
+                }
+            }
+        };
+        if tag == "rings" && rng.coin() {
+            q = vec![F::zero(); d];
+        }
+        if malformed == 3 {
+            match rng.below(3) {
+                0 => q.clear(),
+                1 => {
+                    q.pop();
+                }
+                _ => q.push(F::one()),
+            }
+        }
+        if malformed == 2 && rng.coin() {
+            q.clear();
+        }
+        // k values: 0, 1, around n, beyond n
+        let mut ks = vec![rng.below(n + 3)];
+        match rng.below(5) {
+            0 => ks.push(0),
+            1 => ks.push(n),
+            2 => ks.push(n + 1 + rng.below(2)),
+            3 => ks.push(1),
+            _ => ks.push(rng.below(n + 1)),
+        }
+        if em.thorough() {
+            ks.push(rng.below(n + 3));
+        }
+        // radii: 0, on / one ulp around inter-point distances, beyond the diameter
+        let well = s.buildable() && q.len() == s.ncols();
+        let dists: Vec<f64> = if well && n > 0 {
+            let qw: Vec<f64> = q.iter().map(|x| x.wide()).collect();
+            s.pts.rows().into_iter().map(|r| own_dist(met, &qw, &wide_row(r))).collect()
+        } else {
+            vec![1.0]
+        };
+        let mut rs: Vec<F> = vec![];
+        for _ in 0..(if em.thorough() { 3 } else { 2 }) {
+            let base = *rng.pick(&dists);
+            let r = match rng.below(8) {
+                0 => 0.0,
+                1 | 2 | 3 => base,
+                4 => {
+                    let x = F::from64(base);
+                    // one ulp above / below in the carrier
+                    let y = if rng.coin() { x + x.abs() * F::epsilon() } else { x - x.abs() * F::epsilon() };
+                    y.wide().max(0.0)
+                }
+                5 => dists.iter().cloned().fold(0.0, f64::max) * 2.0 + 1.0,
+                6 => base * (0.5 + rng.unit()),
+                _ => (rng.range(0, 12) as f64) / 2.0,
+            };
+            rs.push(F::from64(r));
+        }
+        for kind in KINDS {
+            for k in &ks {
+                query_case(em, &s, kind, &q, Q::Knn(*k), &script);
+            }
+            for r in &rs {
+                query_case(em, &s, kind, &q, Q::Range(*r), &script);
+            }
+        }
+        for k in &ks {
+            agree_case(em, &s, &q, Q::Knn(*k));
+        }
+        for r in &rs {
+            agree_case(em, &s, &q, Q::Range(*r));
+        }
+    }
+}
+
+/// fixed witnesses of the two defects the design expected (run first on every run)
+fn corpus(em: &mut Em) {
+    // ball tree, k = 0 on a non-empty index
+    let pts: Array2<f64> = Array2::from_shape_vec((3, 2), vec![0.0, 0.0, 1.0, 0.0, 0.0, 2.0]).unwrap();
+    let s = Setup { pts, met: Met::L2, leaf: 2, tol: 0.0, tag: "corpus" };
+    let script = tree_case(em, &s);
+    for kind in KINDS {
+        query_case(em, &s, kind, &[0.0, 0.0], Q::Knn(0), &script);
+    }
+    agree_case(em, &s, &[0.0, 0.0], Q::Knn(0));
+    // (3,4) at radius 5 from the origin
+    let pts: Array2<f64> = Array2::from_shape_vec((3, 2), vec![3.0, 4.0, 1.0, 1.0, 6.0, 8.0]).unwrap();
+    for met in [Met::L2, Met::L1, Met::Linf] {
+        let s = Setup { pts: pts.clone(), met, leaf: 1, tol: 0.0, tag: "corpus" };
+        let script = tree_case(em, &s);
+        let r = match met {
+            Met::L2 => 5.0,
+            Met::L1 => 7.0,
+            _ => 4.0,
+        };
+        for kind in KINDS {
+            query_case(em, &s, kind, &[0.0, 0.0], Q::Range(r), &script);
+        }
+        agree_case(em, &s, &[0.0, 0.0], Q::Range(r));
+    }
+}
+
+pub fn run(em: &mut Em, rng: &mut Rng) {
+    corpus(em);
+    let clouds = if em.thorough() { 1400 } else { 110 };
+    for _ in 0..clouds {
+        let (rows, d, lattice, tag) = gen_cloud(rng, em.thorough());
+        let met = gen_metric(rng, lattice);
+        let malformed = if rng.chance(1, 7) { 1 + rng.below(3) as u8 } else { 0 };
+        if rng.chance(1, 4) {
+            scenario::<f32>(em, rng, &rows, d, lattice, tag, met, malformed);
+        } else {
+            scenario::<f64>(em, rng, &rows, d, lattice, tag, met, malformed);
+        }
+    }
+}
